@@ -392,7 +392,7 @@ theorem diskValue_of_inv (L : DB) (inv : DiskInv L) (hp : L.pending = []) (k : K
 
 /-- sync() up to its log write, with both invariants -/
 theorem sync_logWritten3 (db : DB) (h : Inv3 db) (hp : db.pending.isEmpty = false) (hs : SizeOK db) :
-    ∃ L, sync db = (if L.extra > L.opts.forcedPerc * L.need / 100 then defrag L else L) ∧
+    ∃ L, sync db = (if L.extra > mul64 L.opts.forcedPerc L.need / 100 then defrag L else L) ∧
       Inv3 L ∧ absv L = absv db ∧ L.pending = [] ∧
       (∃ es, L.effs = db.effs ++ es ∧ es.map (·.2) = syncEffs db) ∧
       L.fs = db.fs.applyAll (syncEffs db) ∧ L.dataSeq = db.dataSeq ∧
@@ -488,7 +488,7 @@ theorem sync_atomic (db : DB) (h : Inv3 db) (hs : SizeOK db) (hd : DFits db) :
   | false =>
     obtain ⟨L, hL, h3L, absL, pL, ⟨es1, hes1, hes1m⟩, hfs, hds, _, hLe⟩ := sync_logWritten3 db h hp hs
     have hA := sync_part_atomic db h hp hs
-    by_cases hc : L.extra > L.opts.forcedPerc * L.need / 100
+    by_cases hc : L.extra > mul64 L.opts.forcedPerc L.need / 100
     · rw [if_pos hc] at hL
       have hlen : L.index.length = db.index.length := by
         have := congrArg List.length absL
